@@ -308,6 +308,65 @@ pub fn check_json(c: &JsonCase, st: &mut Stats) {
     }
 }
 
+/// The same seven groups with their operations listed in another order (a list generated from
+/// generators, a rotated or reversed table): a group is a set of operations, the arrangement
+/// must have its symmetry whatever the order, and whether the state is built from the group or
+/// read from JSON.
+pub fn check_permuted(seed: u64, st: &mut Stats) {
+    st.eval();
+    let mut rng = crate::common::rng_for(seed, 404);
+    let name = groups::NAMES[rng.gen_range(1, 7)];
+    let wg = match libx::lib_group(name) {
+        Ok(g) => g,
+        Err(_) => return,
+    };
+    let mut ops: Vec<&str> = wg.wyckoff_str.clone();
+    let k = rng.gen_range(1, ops.len().max(2));
+    let nops = ops.len().max(1);
+    ops.rotate_left(k % nops);
+    if rng.gen_bool(0.3) {
+        ops.reverse();
+    }
+    let g = packing::WallpaperGroup { name: ["listed otherwise", name][rng.gen_range(0, 2)], family: wg.family, wyckoff_str: ops.clone() };
+    let lj = rng.gen_bool(0.4);
+    let view: SymView = {
+        macro_rules! place {
+            ($state:expr, $ty:ty, $view:expr) => {{
+                let s0 = match $state {
+                    Ok(s) => s,
+                    Err(_) => return,
+                };
+                let mut v = match serde_json::to_value(&s0) {
+                    Ok(v) => v,
+                    Err(_) => return,
+                };
+                v["cell"]["length"] = json!(rng.gen_range(1., 12.));
+                v["cell"]["ratio"] = json!(rng.gen_range(0.2, 1.5));
+                if libx::is_oblique(name) {
+                    v["cell"]["angle"] = json!(rng.gen_range(0.4, 2.6));
+                }
+                v["occupied_sites"][0]["x"] = json!(rng.gen_range(-0.5, 0.5));
+                v["occupied_sites"][0]["y"] = json!(rng.gen_range(-0.5, 0.5));
+                v["occupied_sites"][0]["angle"] = json!(rng.gen_range(0., 6.28));
+                match serde_json::from_value::<$ty>(v) {
+                    Ok(s) => $view(&s),
+                    Err(_) => return,
+                }
+            }};
+        }
+        if lj {
+            place!(PotentialState::from_group(chiral_lj(), &g), PotentialState<LJShape2>, view_lj)
+        } else {
+            place!(PackedState::from_group(chiral_line(), &g), PackedState<LineShape>, view_hard)
+        }
+    };
+    st.nontrivial(hash64(&[404, seed]));
+    st.count("states_of_groups_listed_in_another_order");
+    if let Some((what, detail)) = check_symmetry(name, &view) {
+        st.violation(Violation { kind: "c04.permuted".into(), signature: format!("symmetry:{}:{}", name, what), case: json!({ "permuted_seed": seed }), detail: json!({"operations_as_listed": ops, "what": detail}) });
+    }
+}
+
 /// one state object (hard or LJ) edited again and again, its arrangement checked after every
 /// edit: the placements it reports must have the group's symmetry in the cell it holds now
 pub fn check_history(h: &History, st: &mut Stats) {
@@ -422,7 +481,7 @@ pub fn gen_case<R: Rng>(rng: &mut R, optimised: bool) -> Case {
 }
 
 pub fn run(ctx: &Ctx) {
-    ctx.set_rule("hard and Lennard-Jones states of all 7 groups with chiral test shapes (irregular 7-gon; three unlike LJ particles - sensitive to handedness) and the CLI's shapes; sites uniform and on special positions/bounds, orientations incl. multiples of pi/2, cells of the group's family (length 0.1-30, ratio 0.1-1, oblique angle pi/6-pi/2); plus states after chains of 1-3 optimisation stages (kT 0/0.1/5, step 0.01-0.6, directly and via clone(), read back through JSON) where ratio and angle drift; plus states read from JSON with any lattice of the family (ratio 0.1-8, oblique angles 0.1..pi-0.1) and sites on cell faces, on half-integers and whole lattice vectors outside the cell; plus state objects that live through histories of 3-13 edits (several parameters at once - set, rescaled by powers of two, negated, nudged by an ulp, exchanged, reset -, the shape replaced, the cell replaced, clone(), JSON round trip), checked after every edit. Oracle: for every ITA operation, Q = M W M^-1 must be orthogonal (1e-9) and the image of every placed copy must coincide, as a set of points with radii, with some placed copy plus a lattice vector (1e-9 x scale). Non-trivial = group order >= 2 and a shape without full rotational symmetry; distinct by quantised parameters + stage seed");
+    ctx.set_rule("hard and Lennard-Jones states of all 7 groups with chiral test shapes (irregular 7-gon; three unlike LJ particles - sensitive to handedness) and the CLI's shapes; sites uniform and on special positions/bounds, orientations incl. multiples of pi/2, cells of the group's family (length 0.1-30, ratio 0.1-1, oblique angle pi/6-pi/2); plus states after chains of 1-3 optimisation stages (kT 0/0.1/5, step 0.01-0.6, directly and via clone(), read back through JSON) where ratio and angle drift; plus states read from JSON with any lattice of the family (ratio 0.1-8, oblique angles 0.1..pi-0.1) and sites on cell faces, on half-integers and whole lattice vectors outside the cell; plus the groups' own operations listed in another order (rotated, reversed) as user-defined groups; plus state objects that live through histories of 3-13 edits (several parameters at once - set, rescaled by powers of two, negated, nudged by an ulp, exchanged, reset -, the shape replaced, the cell replaced, clone(), JSON round trip), checked after every edit. Oracle: for every ITA operation, Q = M W M^-1 must be orthogonal (1e-9) and the image of every placed copy must coincide, as a set of points with radii, with some placed copy plus a lattice vector (1e-9 x scale). Non-trivial = group order >= 2 and a shape without full rotational symmetry; distinct by quantised parameters + stage seed");
     ctx.assume("the ITA table of oracle/groups.rs; placements are read from cartesian_positions() and the cell from its three numbers");
     let n = ctx.tier.pick(5_000u64, 400_000u64);
     let nopt = ctx.tier.pick(40u64, 1_500u64);
@@ -441,6 +500,9 @@ pub fn run(ctx: &Ctx) {
         for _ in 0..n / 4 {
             check_json(&gen_json_case(rng), st);
         }
+        for _ in 0..n / 10 {
+            check_permuted(rng.gen(), st);
+        }
     });
     std::panic::set_hook(prev);
     ctx.set_min_nontrivial(5_000);
@@ -448,7 +510,9 @@ pub fn run(ctx: &Ctx) {
 
 pub fn replay(ctx: &Ctx, case: &Value) {
     let mut st = Stats::new();
-    if let Ok(j) = serde_json::from_value::<JsonCase>(case.clone()) {
+    if let Some(seed) = case["permuted_seed"].as_u64() {
+        check_permuted(seed, &mut st);
+    } else if let Ok(j) = serde_json::from_value::<JsonCase>(case.clone()) {
         check_json(&j, &mut st);
     } else if let Ok(h) = serde_json::from_value::<History>(case.clone()) {
         check_history(&h, &mut st);
